@@ -577,6 +577,9 @@ class C04(Property):
         "Flatland.C04.Proofs.C04_reset_u_fails",
         "Flatland.C04.Proofs.C04_reset_value_fails",
         "Flatland.C04.Proofs.signals_spec",
+        "Flatland.C04.Proofs.seq_flag",
+        "Flatland.C04.Proofs.dict_flag",
+        "Flatland.C04.Proofs.joined_flag",
     ]
     generated_obligations = ["Flatland.C04.Proofs.pyTables_ok"]
     level_text = "proof"
